@@ -19,8 +19,9 @@ open Adb Adb.Gen
 abbrev Mask := Nat
 
 @[inline] def has (m : Mask) (bit : Nat) : Bool := m.testBit bit
+/-- `mask.set(FLAG, v)` for a single-bit flag -/
 def setBit (m : Mask) (bit : Nat) (v : Bool) : Mask :=
-  if v then m ||| (1 <<< bit) else m &&& ((2 ^ 32 - 1) ^^^ (1 <<< bit))
+  if m.testBit bit == v then m else m ^^^ (1 <<< bit)
 
 inductive FilterPart where
   | empty
@@ -54,7 +55,7 @@ structure Rule where
   /-- external parameter: the result of the `regex` crate on a complete-regex (`/re/`) rule for the
       request of the case (only consulted when `IS_COMPLETE_REGEX` is set) -/
   rx : Bool := false
-deriving Repr, Inhabited
+deriving Repr, Inhabited, DecidableEq
 
 namespace Rule
 def isException (r : Rule) := has r.mask IS_EXCEPTION
